@@ -35,7 +35,7 @@ CLASS_OF = {"2": "Code2", "3": "Code3", "4": "Code4"}
 # which translated classes each property's theorems lean on
 NEEDS = {
     "C01": ["3"], "C02": ["4"], "C03": ["2"],
-    "C06": ["2", "3", "4"], "C09": ["2", "3", "4"], "C14": ["2", "3", "4"], "C15": ["2", "3"],
+    "C06": ["2", "3", "4"], "C07": ["2", "3", "4"], "C09": ["2", "3", "4"], "C14": ["2", "3", "4"], "C15": ["2", "3"],
 }
 V4_KEYS = ["AV", "AC", "AT", "PR", "UI", "VC", "VI", "VA", "SC", "SI", "SA", "CR", "IR", "AR", "E", "MSI", "MSA", "MAV", "S", "U"]
 
@@ -111,13 +111,23 @@ def _real(ver, s):
     except Exception:  # noqa
         return "exc"
     try:
+        def call(f, *a):
+            try:
+                return f(*a)
+            except Exception:  # noqa
+                return "EXC"
+
         if ver == "2":
-            return "ok\t%s %s %s" % (_frac(o.base_score), _frac(o.temporal_score), _frac(o.environmental_score))
+            return "ok\t%s %s %s\t%s\t%s\t%s\t%s" % (
+                _frac(o.base_score), _frac(o.temporal_score), _frac(o.environmental_score), call(o.clean_vector),
+                call(lambda: "|".join(o.severities())), call(o.temporal_vector), call(o.environmental_vector))
         if ver == "3":
             return "ok\t%s %s %s\t%s\t%s" % (
                 _frac(o.base_score), _frac(o.temporal_score), _frac(o.environmental_score),
                 ",".join("%s:%s" % kv for kv in sorted(o.metrics.items())),
-                ",".join("%s:%s" % kv for kv in sorted(o.original_metrics.items())))
+                ",".join("%s:%s" % kv for kv in sorted(o.original_metrics.items()))) + "\t%s\t%s\t%s\t%s\t%s" % (
+                call(o.clean_vector), call(o.clean_vector, False), call(lambda: "|".join(o.severities())),
+                call(o.temporal_vector), call(o.environmental_vector))
         ms = []
         for k in V4_KEYS:
             try:
@@ -129,7 +139,7 @@ def _real(ver, s):
             mv = o.macroVector()
         except Exception:  # noqa
             mv = "EXC"
-        return "ok\t%s\t%s" % (mv, " ".join(ms))
+        return "ok\t%s\t%s\t%s\t%s" % (mv, " ".join(ms), call(o.clean_vector), call(o.clean_vector, False))
     except Exception as e:  # noqa  (attribute renamed, other types: not comparable)
         return "incomparable\t%s: %s" % (type(e).__name__, e)
 
@@ -137,7 +147,7 @@ def _real(ver, s):
 def _canon(ver, line):
     if ver == "3" and line.startswith("ok\t"):
         p = line.split("\t")
-        if len(p) == 4:
+        if len(p) >= 4:
             p[2] = ",".join(sorted(p[2].split(","))) if p[2] else p[2]
             p[3] = ",".join(sorted(p[3].split(","))) if p[3] not in ("", "None") else p[3]
             return "\t".join(p)
